@@ -4,10 +4,12 @@ C19 - container lifting (loop / loops) maps leaf-wise, preserves shape and conta
 zipper / lens broadcasting; as_list / as_tuple idempotent normalisers; waiter independent of completion order.
 """
 import asyncio
+import collections
 import copy
 import functools
 import itertools
 import json
+import os
 
 from hypothesis import strategies as st
 
@@ -34,9 +36,89 @@ ASSUMPTIONS = [
     'a second waiter call on the same structure is made only when it holds no coroutine objects (python forbids awaiting those twice)',
     'waiter, enforced orders: "whatever order the awaitables complete in" includes orders that the awaitables impose themselves - coroutine objects (run by nobody but waiter) each waiting for an event that the completion of its predecessor '
     'in the order sets; nothing depends on time, so "waiter does not return" is decided by a bounded number of event-loop turns (2000; a concurrent waiter needs < 100 for 6 awaitables at depth 5)',
+    'instances of DERIVED container classes (class 35 of the brief; lift, lift_session, libfuncs, waiter: a user subclass of list, of tuple, of dict, of pyg_base.Dict, collections.OrderedDict - at the root and below it, and as flat companions): '
+    'collections.OrderedDict is looped over / matched like dict (the loop factory adds it to dict together with Dict and dictattr - the anchor "loop factory adding dict subclasses"); whether an instance of a USER subclass is one of the types '
+    'loop(list, tuple, dict) "was asked to loop over" the statement does not say (the library loops over subclasses of list / tuple, applies the function to a subclass of dict whole, and matches companions of all of them): both readings are accepted - '
+    'it is a list / tuple / dict (mapped leaf-wise into the SAME class; a companion matched by position / key) or a scalar (the function applied to it whole; a companion broadcast whole) - but ONE reading per call, class and role (operand / companion), and the result must equal the model under it exactly (nothing lost, duplicated or re-typed). '
+    'waiter likewise: a container of a derived class (OrderedDict included - waiter has no factory) comes back as the same class with every awaitable replaced, or as it is',
+    'zipper: instances of subclasses of list / tuple (a namedtuple among them) are sequences like their bases (zipped, length 1 broadcast, ValueError on a length mismatch): "equal-length sequences" names no exact type. as_list / as_tuple were not widened to derived classes in this pass',
+    'finding F41 (fixed in /repo, replay replays/C19/F41-*.json; generated by default, left out only with PV_C19_EXCLUDE_FIXED=1): namedtuples inside lifted structures / waiter structures - before the fix a TypeError for 2+ fields, a 1-field namedtuple came back holding a list',
     'sessions (several calls on the same objects) judge every call by the ORIGINAL content of the operands: the statement maps "the original leaves", a callee that edits its arguments breaks the later calls; '
     'between two calls the harness itself may write ONE leaf cell of a list / dict of the operand (or of a flat list / dict companion) in place - shapes unchanged - and the later calls are judged by that current content (an answer remembered per object would be stale); not done where one container object sits at two places',
 ]
+
+# F41, fixed in /repo (rebuilt through _make) (class 35, found by the derived-class widening): before the fix a namedtuple of 2+ fields anywhere in the operand (or as a companion of another length) makes loop(list, tuple, dict)(f),
+# the lifted library functions and waiter raise TypeError, a namedtuple of ONE field comes back holding a LIST of its mapped elements: they rebuild containers by
+# type(arg)(res) (_loop.py:238, _loop.py:79, _waiter.py:54), the constructor of a namedtuple takes its fields one by one. Generated by default now.
+INCLUDE_NAMEDTUPLE = os.environ.get('PV_C19_EXCLUDE_FIXED', '') != '1'
+
+
+class UList(list):
+    """a user subclass of list"""
+
+
+class UTuple(tuple):
+    """a user subclass of tuple"""
+
+
+class UDict(dict):
+    """a user subclass of dict"""
+
+
+_NT = {n: collections.namedtuple('NT%i' % n, ['f%i' % i for i in range(n)]) for n in range(6)}
+_LAZY = {}
+
+
+def _UDictOfDict():
+    """a user subclass of pyg_base.Dict (made once, on first use: pyg_base is imported lazily everywhere in this module)"""
+    if 'cls' not in _LAZY:
+        from pyg_base import Dict
+
+        class UDictOfDict(Dict):
+            pass
+        _LAZY['cls'] = UDictOfDict
+    return _LAZY['cls']
+
+
+# derived tag -> the tag of the class it derives from; the sequence tags; family (what ONE reading is demanded for) of the derived classes whose treatment the statement does not fix
+_DERIVED = {'ulist': 'list', 'utuple': 'tuple', 'ntuple': 'tuple', 'OrderedDict': 'dict', 'udict': 'dict', 'uDict': 'Dict'}
+_SEQ_TAGS = ('list', 'tuple', 'ulist', 'utuple', 'ntuple')
+_TUPLE_TAGS = ('tuple', 'utuple', 'ntuple')
+
+
+def _family(x):
+    """None for list / tuple / dict and what the loop factory adds to dict (OrderedDict, Dict, dictattr): these ARE looped over. For an instance of another derived class the family
+    whose reading (is it one of the types to loop over / to match, or a scalar?) the statement leaves open"""
+    if isinstance(x, UList):
+        return 'ulist'
+    if isinstance(x, UTuple):
+        return 'utuple'
+    if isinstance(x, tuple) and hasattr(type(x), '_fields'):
+        return 'ntuple'
+    if isinstance(x, UDict) or ('cls' in _LAZY and isinstance(x, _LAZY['cls'])):
+        return 'udict'
+    return None
+
+
+def _families(x, out):
+    fam = _family(x)
+    if fam:
+        out.add(fam)
+    for v in (x.values() if isinstance(x, dict) else x if isinstance(x, (list, tuple)) else ()):
+        _families(v, out)
+    return out
+
+
+def _readings(x, comps):
+    """every consistent reading of the derived classes met in the operand (role 'op') and in the companions (role 'comp'): per role and family 'loop' (counts as the class it derives from) or 'leaf' (a scalar)"""
+    keys = sorted([('op', f) for f in _families(x, set())] + [('comp', f) for f in _families(list(comps), set())])
+    return [dict(zip(keys, choice)) for choice in itertools.product(['loop', 'leaf'], repeat=len(keys))]
+
+
+def _retype(x, values):
+    """a container of the type of x holding values (a namedtuple takes its fields one by one)"""
+    return type(x)(*values) if hasattr(type(x), '_fields') else type(x)(values)
+
 
 _leaf = st.one_of(st.integers(0, 9), st.sampled_from(['p', 'q', 'Rs', ' t ']), st.none(), st.sampled_from([0.5, 1.25]))
 _KEYS = ['a', 'b', 'c']
@@ -78,6 +160,62 @@ def _tree(draw, d, leaf=None):
 
 
 _l1 = _node(_leaf.map(lambda x: ['leaf', x]))     # includes empty containers
+
+# families of derived classes a case may hold instances of (class 35 of the brief): a user subclass of list, of tuple, of dict / pyg_base.Dict, collections.OrderedDict (which the loop factory
+# adds to dict itself), and - behind INCLUDE_NAMEDTUPLE - namedtuples
+_DERIVE_SETS = [['ulist'], ['utuple'], ['udict'], ['OrderedDict'], ['OrderedDict'], ['ulist', 'udict'], ['utuple', 'OrderedDict'], ['ulist', 'utuple', 'OrderedDict'], ['udict', 'OrderedDict']]
+
+
+def _containers(s, out=None):
+    """the container nodes of a spec tree (the node lists themselves), root first"""
+    out = [] if out is None else out
+    if s[0] != 'leaf':
+        out.append(s)
+        for k in (s[1] if s[0] in _SEQ_TAGS else [v for _, v in s[1]]):
+            _containers(k, out)
+    return out
+
+
+@st.composite
+def _derive(draw, s, root=None):
+    """the structure s with some of its containers made instances of DERIVED classes (by construction at least one, where s has a container): list -> UList, tuple -> UTuple (or a namedtuple),
+    dict -> OrderedDict / UDict, Dict -> a user subclass of Dict. root=True: the root is among them"""
+    s = copy.deepcopy(s)
+    nodes = _containers(s)
+    if not nodes:
+        return s
+    sets = _DERIVE_SETS + ([['ntuple'], ['ntuple'], ['ntuple', 'udict']] if INCLUDE_NAMEDTUPLE else [])
+    present = set(n[0] for n in nodes)
+    fits = lambda fam: _DERIVED[fam] in present or (fam == 'udict' and 'Dict' in present)
+    usable = [fs for fs in sets if any(fits(f) for f in fs)]
+    if root is None:
+        root = draw(st.sampled_from([False, False, True]))
+    if root:
+        usable = [fs for fs in usable if any(_DERIVED[f] == nodes[0][0] or (f == 'udict' and nodes[0][0] == 'Dict') for f in fs)] or usable
+    if not usable:
+        return s                                             # a structure of dictattr only: nothing derives from it here
+    fams = draw(st.sampled_from(usable))
+    cands = [n for n in nodes if any(_DERIVED[f] == n[0] or (f == 'udict' and n[0] == 'Dict') for f in fams)]
+    forced = 0 if (root and cands[0] is nodes[0]) else draw(st.integers(0, len(cands) - 1))
+    for i, n in enumerate(cands):
+        if i == forced or draw(st.booleans()):
+            options = [f for f in fams if (_DERIVED[f] == n[0] or (f == 'udict' and n[0] == 'Dict')) and (f != 'ntuple' or len(n[1]) in _NT)]
+            if options:
+                f = draw(st.sampled_from(options))
+                n[0] = 'uDict' if f == 'udict' and n[0] == 'Dict' else f
+    return s
+
+
+def _derive_comp(draw, c, lens=()):
+    """a flat list / tuple / dict companion as an instance of a derived class (a sequence in half of the cases as long as a list / tuple of the structure)"""
+    cs = c['spec']
+    fit = [l for l in lens if 1 <= l <= 5]
+    if cs[0] in ('list', 'tuple') and fit and draw(st.booleans()):
+        cs[1] = [['leaf', 50 + i] for i in range(draw(st.sampled_from(fit)))]
+    if cs[0] in ('list', 'tuple'):
+        cs[0] = draw(st.sampled_from(['ulist', 'utuple'] + (['ntuple'] if INCLUDE_NAMEDTUPLE else [])))
+    elif cs[0] in ('dict', 'Dict'):
+        cs[0] = draw(st.sampled_from(['OrderedDict', 'udict', 'uDict' if cs[0] == 'Dict' else 'udict']))
 _structure = st.sampled_from([0, 1, 1, 2, 2, 2, 3, 3, 3, 4]).flatmap(lambda d: _l1 if d == 1 else _tree(d))
 
 
@@ -94,9 +232,21 @@ def build(s, memo=None):
         r = [build(x, memo) for x in s[1]]
     elif t == 'tuple':
         r = tuple(build(x, memo) for x in s[1])
+    elif t == 'ulist':
+        r = UList(build(x, memo) for x in s[1])
+    elif t == 'utuple':
+        r = UTuple(build(x, memo) for x in s[1])
+    elif t == 'ntuple':
+        r = _NT[len(s[1])](*[build(x, memo) for x in s[1]])
     else:
         r = {k: build(x, memo) for k, x in s[1]}
-        if t != 'dict':
+        if t == 'OrderedDict':
+            r = collections.OrderedDict(r)
+        elif t == 'udict':
+            r = UDict(r)
+        elif t == 'uDict':
+            r = _UDictOfDict()(r)
+        elif t != 'dict':
             import pyg_base
             r = getattr(pyg_base, t)(r)
     if memo is not None:
@@ -118,7 +268,7 @@ def _conv_key(k, conv):
 def depth(s):
     if s[0] == 'leaf':
         return 0
-    kids = s[1] if s[0] in ('list', 'tuple') else [x for _, x in s[1]]
+    kids = s[1] if s[0] in _SEQ_TAGS else [x for _, x in s[1]]
     return 1 + max([depth(k) for k in kids], default=0)
 
 
@@ -127,7 +277,7 @@ def mirror(s, k, fill, conv=None, seen=None):
     def rec(s, k, path):
         if s[0] == 'leaf' or k == 0:
             return ['leaf', fill(path)]
-        if s[0] in ('list', 'tuple'):
+        if s[0] in _SEQ_TAGS:
             return [s[0], [rec(x, k - 1, path + (i,)) for i, x in enumerate(s[1])]]
         out = []
         for key, x in s[1]:
@@ -145,25 +295,57 @@ def _is_seq(x):
     return isinstance(x, (list, tuple))
 
 
-def model_lift(f, x, pos, kw):
-    """leaf-wise map with element-wise matching of same-length sequences / same-key dicts, broadcast otherwise"""
+def model_lift(f, x, pos, kw, reading=None):
+    """leaf-wise map with element-wise matching of same-length sequences / same-key dicts, broadcast otherwise.
+    reading: {(role, family): 'loop' | 'leaf'} for the instances of derived classes whose treatment the statement leaves open (see _family): an operand ('op') read as 'leaf' is a scalar
+    the function is applied to whole, a companion ('comp') read as 'leaf' is broadcast whole"""
+    reading = reading or {}
+    scalar = lambda role, v: reading.get((role, _family(v)), 'loop') == 'leaf'
+    if scalar('op', x):
+        return f(x, *pos, **kw)
     if isinstance(x, dict):
         keys = sorted(x.keys())
 
         def pick(c, key):
-            if isinstance(c, dict) and sorted(c.keys()) == keys:
+            if isinstance(c, dict) and not scalar('comp', c) and sorted(c.keys()) == keys:
                 return c[key]
             return c
-        return type(x)({key: model_lift(f, x[key], [pick(c, key) for c in pos], {n: pick(c, key) for n, c in kw.items()}) for key in x.keys()})
+        return type(x)({key: model_lift(f, x[key], [pick(c, key) for c in pos], {n: pick(c, key) for n, c in kw.items()}, reading) for key in x.keys()})
     if _is_seq(x):
         n = len(x)
 
         def pick(c, i):
-            if _is_seq(c) and len(c) == n:
+            if _is_seq(c) and not scalar('comp', c) and len(c) == n:
                 return c[i]
             return c
-        return type(x)([model_lift(f, x[i], [pick(c, i) for c in pos], {m: pick(c, i) for m, c in kw.items()}) for i in range(n)])
+        return _retype(x, [model_lift(f, x[i], [pick(c, i) for c in pos], {m: pick(c, i) for m, c in kw.items()}, reading) for i in range(n)])
     return f(x, *pos, **kw)
+
+
+def _show(x):
+    """repr that names the classes of containers which are not plain list / tuple / dict (a UList prints like a list)"""
+    if isinstance(x, dict):
+        body = '{%s}' % ', '.join('%r: %s' % (k, _show(v)) for k, v in x.items())
+        return body if type(x) is dict else '%s(%s)' % (type(x).__name__, body)
+    if isinstance(x, list):
+        body = '[%s]' % ', '.join(_show(v) for v in x)
+        return body if type(x) is list else '%s(%s)' % (type(x).__name__, body)
+    if isinstance(x, tuple):
+        body = '(%s%s)' % (', '.join(_show(v) for v in x), ',' if len(x) == 1 else '')
+        return body if type(x) is tuple else '%s(%s)' % (type(x).__name__, body)
+    return repr(x)
+
+
+def model_lift_any(what, res, f, x, pos, kw, msg='leaf-wise model says', same=None):
+    """the call is judged by the leaf-wise model under every consistent reading of the derived classes among its arguments (ONE reading where there are none): it must agree with one of them"""
+    readings = _readings(x, list(pos) + list(kw.values()))
+    exp = None
+    for r in readings:
+        e = model_lift(f, x, pos, kw, r)
+        exp = e if exp is None else exp
+        if (same or same_shape)(res, e):
+            return e
+    check(False, '%s = %s, %s %s%s', what, _show(res), msg, _show(exp), '' if len(readings) == 1 else ' (and none of the %i consistent readings of the derived classes - each either one of list / tuple / dict or a scalar, operands and companions apart - gives this result)' % len(readings))
 
 
 def same_shape(a, b):
@@ -268,12 +450,21 @@ def _shared_structure(draw):
 def _lift_case(draw):
     which = draw(st.sampled_from(['any'] * 17 + ['long'] * 2 + ['shared'] * 2))
     s = draw(_structure if which == 'any' else _long_structure() if which == 'long' else _shared_structure())
+    # in an eighth of the cases some containers of the structure are instances of DERIVED classes (UList, UTuple, UDict, a subclass of Dict, OrderedDict), in a third of these the root;
+    # in a further twentieth only a flat companion is
+    derived = draw(st.sampled_from([None] * 33 + ['structure'] * 5 + ['companion'] * 2))
+    if derived == 'structure' and which != 'shared':         # (one container OBJECT at two places is built from two equal specs: these stay equal)
+        s = draw(_derive(s))
     d = depth(s)
     lens = sorted(_struct_facts(s)[0])
-    ncomp = draw(st.sampled_from([0, 1, 1, 2, 2]))
+    ncomp = draw(st.sampled_from([0, 1, 1, 2, 2] if derived != 'companion' else [1, 2]))
     comps = []
     for j in range(ncomp):
         c = draw(_comp(d, j, lens))
+        if derived == 'companion' and j == 0 and c['spec'][0] not in ('list', 'tuple', 'dict', 'Dict'):
+            c = draw(_comp(d, j, lens).filter(lambda c: c['kind'] in ('flat_list', 'overlap_dict', 'other_dict')))
+        if derived and c['spec'][0] in ('list', 'tuple', 'dict', 'Dict') and (draw(st.booleans()) or (derived == 'companion' and j == 0)):
+            _derive_comp(draw, c, lens)
         c['how'] = draw(st.sampled_from(['pos', 'pos', 'kw']))
         comps.append(c)
     if ncomp == 2 and draw(st.sampled_from([True] + [False] * 7)):
@@ -485,7 +676,7 @@ def _struct_facts(s):
         if s[0] == 'leaf':
             return
         tags.add(s[0])
-        if s[0] in ('list', 'tuple'):
+        if s[0] in _SEQ_TAGS:
             kids = s[1]
             lens_seen.add(len(kids))
         else:
@@ -555,12 +746,24 @@ def _lift_classes(spec, pos, kw):
             if _has_defaults(shape) and _fits(_effective_defaults(shape, defaults)[j], lens_seen, keys_seen):
                 cls.append('own_container_default_passed_explicitly_and_matched')
     if any(c['spec'][0] == 'leaf' and c['spec'][1] is not None and not c['spec'][1] for c in comps) or \
-       any(c['spec'][0] in ('list', 'tuple') and any(not e[1] for e in c['spec'][1]) for c in comps):
+       any(c['spec'][0] in _SEQ_TAGS and any(not e[1] for e in c['spec'][1]) for c in comps):
         cls.append('falsy_companion_or_companion_element')
-        if d >= 1 and any(c['spec'][0] in ('list', 'tuple') and len(c['spec'][1]) in lens_seen and any(not e[1] for e in c['spec'][1]) for c in comps):
+        if d >= 1 and any(c['spec'][0] in _SEQ_TAGS and len(c['spec'][1]) in lens_seen and any(not e[1] for e in c['spec'][1]) for c in comps):
             cls.append('falsy_element_of_a_matched_flat_companion')
     if facts['falsy_key']:
         cls.append('falsy_dict_key')
+    # class 35 of the brief: instances of classes DERIVED from list / tuple / dict (/ Dict) in the structure - at the root, below it - and among the companions
+    dtags = sorted(t for t in tags if t in _DERIVED)
+    if dtags:
+        cls.append('derived_container_class_in_the_structure')
+        cls += ['derived_class_in_the_structure=' + ('namedtuple' if t == 'ntuple' else 'user_subclass_of_' + _DERIVED[t] if t != 'OrderedDict' else t) for t in dtags]
+        cls.append('derived_class_at_the_root' if s[0] in _DERIVED else 'derived_class_only_below_the_root')
+        if any(c['kind'].startswith('same') for c in comps):
+            cls.append('derived_container_class_in_the_structure_with_same_shape_companion')
+    if any(c['spec'][0] in _DERIVED for c in comps):
+        cls.append('flat_companion_is_an_instance_of_a_derived_class')
+        if d >= 1 and any(c['spec'][0] in _DERIVED and (len(c['spec'][1]) in lens_seen if c['spec'][0] in _SEQ_TAGS else tuple(sorted(str(k) for k, _ in c['spec'][1])) in keys_seen) for c in comps):
+            cls.append('flat_companion_of_a_derived_class_shaped_like_the_data')
     for c, v in zip(comps, pos + [kw[n] for n in names if n in kw]):
         if c['kind'] == 'flat_list' and len(v) <= 1 and any(l != len(v) for l in lens_seen):
             cls.append('companion_of_length_0_or_1_next_to_longer_sequences')
@@ -597,7 +800,8 @@ def _lift_classes(spec, pos, kw):
 
 
 def _describe(sig, first, first_kw, x, pos, kw):
-    return 'loop(list,tuple,dict)(%s)(%s%s%s)' % (sig, first + '=' if first_kw else '', short(x, 150), ''.join(', %s' % short(p, 80) for p in pos) + ''.join(', %s=%s' % (k, short(v, 80)) for k, v in kw.items()))
+    sh = lambda v, n: short(v, n) if not _families(v, set()) and 'OrderedDict' not in repr(v) else _show(v)[:2 * n]
+    return 'loop(list,tuple,dict)(%s)(%s%s%s)' % (sig, first + '=' if first_kw else '', sh(x, 150), ''.join(', %s' % sh(p, 80) for p in pos) + ''.join(', %s=%s' % (k, sh(v, 80)) for k, v in kw.items()))
 
 
 def run_lift(spec):
@@ -616,8 +820,7 @@ def run_lift(spec):
     # the model works on equal copies built from the spec, with a function of its own: the original content, whatever the call did to its arguments
     x0 = build(s)
     pos0, kw0, _ = _build_args(s, x0, spec['comps'], shape, defaults)
-    exp = model_lift(_make_leaf_fn(shape, defaults, model=True)[0], x0, pos0, kw0)
-    check(same_shape(res, exp), '%s = %s, leaf-wise model says %s', what, res, exp)
+    model_lift_any(what, res, _make_leaf_fn(shape, defaults, model=True)[0], x0, pos0, kw0)
     cls, nt = _lift_classes(spec, pos, kw)
     return dict(nt=nt, cls=cls)
 
@@ -628,9 +831,16 @@ def run_lift(spec):
 def _session_case(draw):
     which = draw(st.sampled_from(['any'] * 8 + ['shared']))
     s = draw(st.sampled_from([1, 1, 2, 2, 2, 3, 3, 3, 4]).flatmap(lambda d: _l1 if d == 1 else _tree(d)) if which == 'any' else _shared_structure())
+    # in an eighth of the sessions some containers of the structure (and then, in half of the cases, flat companions) are instances of derived classes
+    derived = which == 'any' and draw(st.sampled_from([False] * 7 + [True]))
+    if derived:
+        s = draw(_derive(s))
     d = depth(s)
     lens = sorted(_struct_facts(s)[0])
     pool = [draw(_comp(d, j, lens)) for j in range(draw(st.sampled_from([1, 2, 2, 3])))]
+    for c in pool:
+        if derived and c['spec'][0] in ('list', 'tuple', 'dict', 'Dict') and draw(st.booleans()):
+            _derive_comp(draw, c, lens)
     # 'two_names': the two functions call their first parameter x and y, and each is called (at least once) with the structure passed by that name
     scenario = draw(st.sampled_from(['free', 'free', 'free', 'two_names']))
     if scenario == 'two_names':
@@ -668,10 +878,10 @@ def _cells(s, obj):
     def walk(s, obj):
         if s[0] == 'leaf':
             return
-        for k, kid in (enumerate(s[1]) if s[0] in ('list', 'tuple') else [(k, v) for k, v in s[1]]):
+        for k, kid in (enumerate(s[1]) if s[0] in _SEQ_TAGS else [(k, v) for k, v in s[1]]):
             if kid[0] != 'leaf':
                 walk(kid, obj[k])
-            elif s[0] != 'tuple':
+            elif s[0] not in _TUPLE_TAGS:
                 out.append((obj, k, kid))
     walk(s, obj)
     return out
@@ -725,8 +935,7 @@ def run_session(spec):
         _, _, objs0 = _build_args(s, x0, [dict(k, how='pos') for k in pool], sh0, df0)
         pos0 = [objs0[i] for i, h in zip(c['use'], c['hows']) if h == 'pos']
         kw0 = {names[j]: objs0[i] for j, (i, h) in enumerate(zip(c['use'], c['hows'])) if h == 'kw'}
-        exp = model_lift(_make_leaf_fn(shape, defaults, tag='leaf%i' % c['fn'], model=True)[0], x0, pos0, kw0)
-        check(same_shape(res, exp), '%s = %s, leaf-wise model (on the original content of the arguments) says %s', what, res, exp)
+        model_lift_any(what, res, _make_leaf_fn(shape, defaults, tag='leaf%i' % c['fn'], model=True)[0], x0, pos0, kw0, 'leaf-wise model (on the original content of the arguments) says')
         one, _ = _lift_classes(dict(s=s, comps=comps, first_kw=c['first_kw'], shape=shape, defaults=defaults, share=spec['share'], wrap=wraps[c['fn']]), pos, kw)
         cls += [l for l in one if not l.startswith(('depth=', 'ncomp=', 'own_')) and ':' not in l and l not in cls]
         fns_used.add(c['fn'])
@@ -762,6 +971,8 @@ _CHARS = ['a', 'l', ' ', ',', ';', 'o']
 @st.composite
 def _lib_case(draw):
     s = draw(_txt_structure)
+    if draw(st.sampled_from([False] * 9 + [True])):
+        s = draw(_derive(s))              # a tenth of the cases: some containers are instances of derived classes (UList, UTuple, UDict, a subclass of Dict, OrderedDict)
     fn = draw(st.sampled_from(_FUNCS + ['replace', 'split']))     # the two with further arguments twice (the number of cases went up by the same share)
     spec = dict(s=s, fn=fn)
     lens = [l for l in sorted(_struct_facts(s)[0]) if 1 <= l <= 3]
@@ -859,13 +1070,12 @@ def run_lib(spec):
     top = (lambda: F(x, *passed)) if omit else (lambda: g(x, **extra))
     res = call(what, top)
     # (1) lifting law: F(structure, further arguments) == structure with F applied to each leaf on its own, the further arguments matched / broadcast by the rule
-    exp = model_lift(lambda v, **k: call('%s on leaf %r with %r' % (fn, v, k), g, v, **k), build(s), [], fresh())
-    check(same_shape(res, exp), '%s = %s but applying it leaf by leaf gives %s', what, res, exp)
+    # (a derived class the statement does not name is either one of list / tuple / dict or a scalar - a "leaf" the function is applied to whole: one reading per class and call)
+    exp = model_lift_any(what, res, lambda v, **k: call('%s on leaf %r with %r' % (fn, v, k), g, v, **k), build(s), [], fresh(), 'but applying it leaf by leaf gives')
     # (2) anchor at the leaves
     py = _py(fn, spec)
     if py is not None:
-        exp2 = model_lift(py, build(s), [], fresh())
-        check(same_or_unanchored(res, exp2), '%s = %s but the python string method at string leaves gives %s', what, res, exp2)
+        model_lift_any(what, res, py, build(s), [], fresh(), 'but the python string method at string leaves gives', same_or_unanchored)
     # (3) the same call once more on the same objects (structure, old / sep list): judged by the original content
     res2 = call(what + ' called a second time on the same objects', top)
     check(same_shape(res2, exp), '%s called a second time on the same objects = %s, the first call gave %s', what, res2, exp)
@@ -879,6 +1089,12 @@ def run_lib(spec):
         cls.append('string_argument_as_long_as_a_sequence_of_the_structure')
     if omit:
         cls.append('optional_arguments_left_out')
+    dtags = sorted(t for t in _struct_facts(s)[2] if t in _DERIVED)
+    if dtags:
+        cls.append('derived_container_class_in_the_structure')
+        cls.append('derived_class_at_the_root' if s[0] in _DERIVED else 'derived_class_only_below_the_root')
+        if fn in ('replace', 'split'):
+            cls.append('derived_container_class_in_the_structure_and_further_arguments')
     if fn == 'replace' and spec['new'] is None and not omit or fn == 'split' and not omit and (extra['sep'] == ' ' or extra['dedup'] is False):
         cls.append('own_default_passed_explicitly')
     return dict(nt=d >= 2, cls=cls)
@@ -896,6 +1112,13 @@ _zarg = st.one_of(st.integers(0, 9).map(lambda v: ['scalar', v]), st.sampled_fro
 @st.composite
 def _zip_case(draw):
     args = draw(st.lists(_zarg, max_size=4))
+    plain_seqs = [i for i, a in enumerate(args) if a[0] in ('list', 'tuple')]
+    if plain_seqs and draw(st.sampled_from([False] * 5 + [True])):
+        # a sixth of the cases with a list / tuple argument: some of these (at least one) are instances of DERIVED sequence classes instead - same elements, same lengths (so length 1 is broadcast as often)
+        forced = draw(st.sampled_from(plain_seqs))
+        args = [[draw(st.sampled_from(['ulist', 'utuple', 'ntuple'])), a[1]] if i == forced or (i in plain_seqs and draw(st.booleans())) else a for i, a in enumerate(args)]
+        if draw(st.sampled_from([False, False, True])):
+            args[forced] = [args[forced][0], args[forced][1][:1] or [7]]         # ... in a third of them one of length 1 (broadcast next to longer sequences)
     again = []
     for _ in range(draw(st.sampled_from([0, 0, 0, 1, 2])) if args else 0):
         # further calls on the SAME argument objects: a permutation, cut to a prefix in half of the cases
@@ -923,6 +1146,9 @@ def _zip_build(spec_args):
         elif a[0] == 'array':
             import numpy as np
             objs.append(np.array(a[1], dtype='int64'))
+            plain.append(('seq', list(a[1])))
+        elif a[0] in _DERIVED:
+            objs.append(build([a[0], [['leaf', v] for v in a[1]]]))
             plain.append(('seq', list(a[1])))
         else:
             objs.append(list(a[1]) if a[0] == 'list' else tuple(a[1]))
@@ -976,6 +1202,10 @@ def run_zipper(spec):
             cls.append('range_or_array_of_length_1_broadcast')
     if any(a[0] == 'same' and a[1] < i and plain[i][0] == 'seq' for i, a in enumerate(spec['args'])):
         cls.append('one_sequence_object_passed_twice')
+    if any(k in _DERIVED for k in kinds):
+        cls.append('argument_of_a_class_derived_from_list_or_tuple')
+        if any(k in _DERIVED and l == 1 for k, l in zip(kinds, lengths)) and any(l is not None and l > 1 for l in lengths):
+            cls.append('derived_class_argument_of_length_1_broadcast')
     if spec['again']:
         cls.append('further_calls_on_the_same_objects')
         if any(l == 1 for l in lengths) and any(l is not None and l > 1 for l in lengths):
@@ -1076,7 +1306,7 @@ def _count_aw(s):
         elif s[0] == 'coro':
             state['n'] += 1
         elif s[0] not in ('leaf', 'futref'):
-            for k in (s[1] if s[0] in ('list', 'tuple') else [v for _, v in s[1]]):
+            for k in (s[1] if s[0] in _SEQ_TAGS else [v for _, v in s[1]]):
                 walk(k)
     walk(s)
     return state['n']
@@ -1092,7 +1322,7 @@ def _future_reused(s):
         elif s[0] in ('fut', 'futref'):
             state['plain'] = True
         elif s[0] not in ('leaf', 'coro'):
-            for k in (s[1] if s[0] in ('list', 'tuple') else [v for _, v in s[1]]):
+            for k in (s[1] if s[0] in _SEQ_TAGS else [v for _, v in s[1]]):
                 walk(k)
     walk(s)
     return state['reused']
@@ -1103,12 +1333,52 @@ def _has(s, tag):
         return True
     if s[0] in ('leaf', 'fut', 'coro', 'futref'):
         return False
-    return any(_has(k, tag) for k in (s[1] if s[0] in ('list', 'tuple') else [v for _, v in s[1]]))
+    return any(_has(k, tag) for k in (s[1] if s[0] in _SEQ_TAGS else [v for _, v in s[1]]))
+
+
+def _w_containers(s, out=None):
+    """the list / tuple / dict / Dict nodes of a waiter spec, root first"""
+    out = [] if out is None else out
+    if s[0] in ('list', 'tuple', 'dict', 'Dict'):
+        out.append(s)
+        for k in (s[1] if s[0] in _SEQ_TAGS else [v for _, v in s[1]]):
+            _w_containers(k, out)
+    return out
+
+
+def _containers_any(s, out=None):
+    """every container node of a waiter spec (derived tags included)"""
+    out = [] if out is None else out
+    if s[0] not in ('leaf', 'fut', 'coro', 'futref'):
+        out.append(s)
+        for k in (s[1] if s[0] in _SEQ_TAGS else [v for _, v in s[1]]):
+            _containers_any(k, out)
+    return out
+
+
+_W_FAMILY = {'ulist': 'ulist', 'utuple': 'utuple', 'ntuple': 'ntuple', 'udict': 'udict', 'uDict': 'udict', 'OrderedDict': 'OrderedDict'}
+
+
+def _w_make(t, keys, values):
+    """a container of the kind t"""
+    if t in _SEQ_TAGS:
+        return build([t, [['leaf', v] for v in values]])
+    return build([t, [[k, ['leaf', v]] for k, v in zip(keys, values)]])
 
 
 @st.composite
 def _waiter_case(draw):
-    s = draw(st.one_of(_w1, _w2, _w3, _w_leaf).filter(lambda s: _count_aw(s) <= 6))
+    derived = draw(st.sampled_from([False] * 7 + [True]))
+    # (the derived cases are drawn nested more often: a container of containers)
+    s = draw((st.one_of(_w1, _w2, _w3, _w_leaf) if not derived else st.one_of(_w1, _w_node(st.one_of(_w_leaf, _w1, _w1)), _w_node(st.one_of(_w1, _w2)))).filter(lambda s: _count_aw(s) <= 6))
+    if s[0] in ('list', 'tuple', 'dict', 'Dict') and derived:
+        # class 35 of the brief: some containers (by construction at least one) are instances of derived classes - UList, UTuple, OrderedDict, UDict, a user subclass of Dict
+        s = copy.deepcopy(s)
+        nodes = _w_containers(s)
+        forced = len(nodes) - 1 - draw(st.integers(0, len(nodes) - 1))
+        for i, n in enumerate(nodes):
+            if i == forced or draw(st.booleans()):
+                n[0] = draw(st.sampled_from({'list': ['ulist'], 'tuple': ['utuple'] + (['ntuple'] if INCLUDE_NAMEDTUPLE else []), 'dict': ['OrderedDict', 'udict'], 'Dict': ['uDict']}[n[0]]))
     k = _count_aw(s)
     order = draw(st.permutations(list(range(k))))
     # again: a second waiter call on the same structure once everything has completed (possible only without coroutine objects)
@@ -1129,34 +1399,35 @@ def _run_waiter(s, order, again=False, mode='driver'):
 
         def mk(s):
             t = s[0]
+            # returns (the object handed to waiter, reading -> the expected result): a container of a derived class that the reading takes for a scalar comes back as it is (the same object)
             if t == 'leaf':
-                return s[1], s[1]
+                return s[1], lambda r, v=s[1]: v
             if t == 'futref' and plain:
                 i = plain[-1]
-                return futs[i], ('val', i)
+                return futs[i], lambda r, i=i: ('val', i)
             if t in ('fut', 'coro', 'futref'):
                 i = len(futs)
                 f = loop.create_future()
                 futs.append(f)
                 if t != 'coro':
                     plain.append(i)
-                    return f, ('val', i)
+                    return f, lambda r, i=i: ('val', i)
 
                 async def co(f=f):
                     v = await f
                     return ('co',) + v
-                return co(), ('co', 'val', i)
-            if t in ('list', 'tuple'):
-                pairs = [mk(x) for x in s[1]]
-                conv = list if t == 'list' else tuple
-                return conv(p[0] for p in pairs), conv(p[1] for p in pairs)
-            pairs = [(k, mk(x)) for k, x in s[1]]
-            d1, d2 = {k: p[0] for k, p in pairs}, {k: p[1] for k, p in pairs}
-            if t == 'Dict':
-                from pyg_base import Dict
-                return Dict(d1), Dict(d2)
-            return d1, d2
-        structure, expected = mk(s)
+                return co(), lambda r, i=i: ('co', 'val', i)
+            keys = None if t in _SEQ_TAGS else [k for k, _ in s[1]]
+            pairs = [mk(x) for x in (s[1] if t in _SEQ_TAGS else [v for _, v in s[1]])]
+            obj = _w_make(t, keys, [p[0] for p in pairs])
+            fam = _W_FAMILY.get(t)
+            if fam:
+                fams.add(fam)
+            return obj, lambda r, t=t, keys=keys, pairs=pairs, obj=obj, fam=fam: obj if fam and r.get(fam) == 'leaf' else _w_make(t, keys, [p[1](r) for p in pairs])
+        fams = set()
+        structure, expected_by = mk(s)
+        keys_ = sorted(fams)
+        expected = [expected_by(dict(zip(keys_, choice))) for choice in itertools.product(['loop', 'leaf'], repeat=len(keys_))]
         task = asyncio.ensure_future(waiter(structure))
         for idx in order:
             await asyncio.sleep(0)
@@ -1353,12 +1624,21 @@ def run_waiter(spec):
         if _future_reused(s):
             cls.append('one_future_object_at_several_places')
         return dict(nt=later, cls=cls)
-    res, exp, second = call('waiter(%s) with completion order %s' % (short(s, 150), order), _run_waiter, s, order, again)
-    check(same_shape(res, exp), 'waiter(%s) with completion order %s returned %s, expected %s', s, order, res, exp)
+    # exps: the expected result under every consistent reading of the derived classes in the structure (each either a list / tuple / dict like its base, or a scalar handed back as it is); ONE where there are none
+    res, exps, second = call('waiter(%s) with completion order %s' % (short(s, 150), order), _run_waiter, s, order, again)
+    note = '' if len(exps) == 1 else ' (or one of the %i other consistent readings of the derived classes)' % (len(exps) - 1)
+    exp = ([e for e in exps if same_shape(res, e)] or exps)[0]
+    check(same_shape(res, exp), 'waiter(%s) with completion order %s returned %s, expected %s%s', s, order, res, exp, note)
     for r in second:
         check(same_shape(r, exp), 'waiter(%s) called a second time on the same structure, after everything completed in order %s, returned %s, expected %s', s, order, r, exp)
     k = len(order)
     cls = ['awaitables=%i' % k, 'in_creation_order' if order == sorted(order) else 'permuted']
+    dtags = [n[0] for n in _containers_any(s) if n[0] in _DERIVED]
+    if dtags:
+        cls.append('derived_container_class_in_the_structure')
+        cls.append('derived_class_at_the_root' if s[0] in _DERIVED else 'derived_class_only_below_the_root')
+        if k:
+            cls.append('awaitable_inside_or_next_to_a_container_of_a_derived_class')
     if _future_reused(s):
         cls.append('one_future_object_at_several_places')
     if second and k:
@@ -1420,7 +1700,11 @@ SUBS = [
                                  'fn_is_a_partial_with_a_bound_keyword': 0.024, 'partial_binds_a_container_shaped_like_the_data': 0.007, 'own_default_passed_explicitly': 0.05,
                                  'own_container_default_passed_explicitly_and_matched': 0.008, 'falsy_companion_or_companion_element': 0.04, 'falsy_element_of_a_matched_flat_companion': 0.006, 'falsy_dict_key': 0.035,
                                  # class 16 of the brief, functions that carry __wrapped__
-                                 'fn_carries___wrapped___of_another_signature': 0.045, 'fn_carries___wrapped___structure_passed_by_keyword': 0.017, 'fn_carries___wrapped___structure_positional_with_companions': 0.018}),
+                                 'fn_carries___wrapped___of_another_signature': 0.045, 'fn_carries___wrapped___structure_passed_by_keyword': 0.017, 'fn_carries___wrapped___structure_positional_with_companions': 0.018,
+                                 # class 35 of the brief: instances of classes derived from list / tuple / dict
+                                 'derived_container_class_in_the_structure': 0.05, 'derived_class_in_the_structure=user_subclass_of_list': 0.012, 'derived_class_in_the_structure=user_subclass_of_tuple': 0.006,
+                                 'derived_class_in_the_structure=user_subclass_of_dict': 0.006, 'derived_class_in_the_structure=OrderedDict': 0.012, 'derived_class_at_the_root': 0.03, 'derived_class_only_below_the_root': 0.014,
+                                 'derived_container_class_in_the_structure_with_same_shape_companion': 0.012, 'flat_companion_is_an_instance_of_a_derived_class': 0.02, 'flat_companion_of_a_derived_class_shaped_like_the_data': 0.004}),
     Sub('lift_session', lambda tier: _session_case(), run_session, quick=1200, thorough=8000,
         rule='the operand structure and a pool of 1-3 companions are built ONCE, two leaf functions (made by one factory, any two shapes) are lifted - by ONE loop(list, tuple, dict) decorator object in 2 of 3 cases - and 2-4 calls are made on '
              'these same objects, their companion lists prefixes / extensions / permutations of one another, positional or by keyword; either function may be the outer function of a functools.wraps decorator whose inner function has another signature; before a call the harness may write one leaf cell of the operand (or of a list / dict companion) in place, in half of these cases repeating an earlier call exactly; '
@@ -1430,25 +1714,29 @@ SUBS = [
                                  'one_container_object_at_two_places': 0.03, 'companion_is_the_operand_object': 0.012, 'fn_with_varargs_or_keyword_only_and_companions': 0.09, 'unfilled_container_default_shaped_like_the_data': 0.06,
                                  # classes 24, 28, 29 of the brief
                                  'cell_written_in_place_between_calls': 0.07, 'cell_written_in_place_then_an_earlier_call_repeated': 0.025, 'fn_is_a_partial_with_a_bound_keyword': 0.025, 'falsy_companion_or_companion_element': 0.045, 'falsy_dict_key': 0.045,
-                                 'fn_carries___wrapped___of_another_signature': 0.08, 'fn_carries___wrapped___structure_passed_by_keyword': 0.045}),
+                                 'fn_carries___wrapped___of_another_signature': 0.08, 'fn_carries___wrapped___structure_passed_by_keyword': 0.045,
+                                 'derived_container_class_in_the_structure': 0.04, 'derived_class_at_the_root': 0.025, 'derived_class_only_below_the_root': 0.004, 'flat_companion_is_an_instance_of_a_derived_class': 0.009}),      # class 35
     Sub('libfuncs', lambda tier: _lib_case(), run_lib, quick=3000, thorough=18000,
         rule='lower/upper/strip/proper/capitalize/f12/as_float/replace/split on nested structures with string, number and None leaves; oracle: result equals the structure '
              'with the function applied to every leaf on its own, and (where python has the method) the python string method at string leaves; replace / split also with `old` / `sep` given as a two-character string or a list / tuple of 1-3 characters, which is matched element by element where a list / tuple of that length sits '
              '(the model passes it as a companion); the optional arguments (new, dedup, sep and dedup) passed explicitly - also as their documented defaults - or left out; every call is made twice on the same objects. non-trivial = depth >= 2',
         floor=0.3, class_floors={'list_argument_as_long_as_a_sequence_of_the_structure': 0.008, 'string_argument_as_long_as_a_sequence_of_the_structure': 0.006,
-                                 'optional_arguments_left_out': 0.013, 'own_default_passed_explicitly': 0.018}),      # class 26 of the brief
+                                 'optional_arguments_left_out': 0.013, 'own_default_passed_explicitly': 0.018,      # class 26 of the brief
+                                 'derived_container_class_in_the_structure': 0.04, 'derived_class_at_the_root': 0.02, 'derived_class_only_below_the_root': 0.014, 'derived_container_class_in_the_structure_and_further_arguments': 0.01}),      # class 35
     Sub('zipper', lambda tier: _zip_case(), run_zipper, quick=3000, thorough=20000,
         rule='0-4 arguments from scalars (0, "" and False among them), strings, lists / tuples / ranges / 1-d numpy arrays of length 0-4, possibly one sequence object passed twice; in 2 of 5 cases 1-2 further calls on the same argument objects (permuted, cut to a prefix); '
              'oracle: zip after broadcasting scalars and length-1 sequences, ValueError iff two lengths differ and neither is 1, every call judged by the original content of the arguments; lens returns the common length. non-trivial = broadcasting, mismatch or empty',
         floor=0.2, class_floors={'mismatch_raises': 0.04, 'range_or_array_argument': 0.15, 'range_or_array_of_length_1_broadcast': 0.015, 'one_sequence_object_passed_twice': 0.017, 'further_calls_on_the_same_objects': 0.09, 'further_calls_after_a_length_1_broadcast': 0.008,
-                                 'falsy_scalar_argument': 0.08, 'empty_string_or_False_scalar_argument': 0.03}),      # class 29 of the brief
+                                 'falsy_scalar_argument': 0.08, 'empty_string_or_False_scalar_argument': 0.03,      # class 29 of the brief
+                                 'argument_of_a_class_derived_from_list_or_tuple': 0.03, 'derived_class_argument_of_length_1_broadcast': 0.004}),      # class 35
     Sub('as_list', lambda tier: _al_case(), run_as_list, quick=2000, thorough=10000,
         rule='None, scalars (kind falsy: "", False, 0.0, 0), strings, lists, tuples, 1-tuples holding a list, ranges, zips, dicts, dict views, with the option none= left out / False / True; oracle: element preservation with exact result type and f(f(x)) == f(x)',
         floor=0.3, class_floors={'None_with_none=True': 0.014, 'kind=zip': 0.027, 'kind=falsy': 0.025}),
     Sub('waiter', lambda tier: _waiter_case(), run_waiter, quick=600, thorough=5000,
         rule='nested structures holding up to 6 futures/coroutines mixed with plain values, a future possibly placed several times; a driver resolves the futures in a generated permutation; in half of the coroutine-free cases waiter is called '
              'a second time on the same (now completed) structure; oracle: same structure and container types with every awaitable replaced by its result. non-trivial = >= 2 awaitables resolved out of creation order',
-        floor=0.05, class_floors={'one_future_object_at_several_places': 0.05, 'second_call_on_the_same_completed_futures': 0.065}),      # the spec space is small: in the thorough tier most cases repeat earlier ones, so the distinct share is low
+        floor=0.05, class_floors={'one_future_object_at_several_places': 0.05, 'second_call_on_the_same_completed_futures': 0.065,
+                                  'derived_container_class_in_the_structure': 0.08, 'derived_class_at_the_root': 0.07, 'derived_class_only_below_the_root': 0.01, 'awaitable_inside_or_next_to_a_container_of_a_derived_class': 0.04}),      # class 35      # the spec space is small: in the thorough tier most cases repeat earlier ones, so the distinct share is low
     Sub('waiter_enforced', lambda tier: _gated_case(), run_waiter, quick=300, thorough=2500,
         rule='nested structures (depth 2-4) with 2-6 awaitables, at least two of them coroutine objects in different sub-containers / on different levels, whose completion order (any permutation) is ENFORCED: each awaitable waits for '
              'an event that the completion of its predecessor in the order sets (coroutine objects wait themselves, futures are completed by a helper task waiting for the event); oracle: waiter returns - within a bounded number of '
